@@ -1121,6 +1121,9 @@ func holdBackBeyondSendMax(peer *peer, paths, filtered []*table.Path) []*table.P
 			continue
 		}
 		added[key]++
+		// it is advertised now: no longer held back by send-max (a stale mark would
+		// make the fan-out skip its withdrawal later)
+		peer.unsetPathSendMaxFiltered(p)
 		out = append(out, p)
 	}
 	return out
